@@ -124,6 +124,19 @@ impl<T: Write + Read + Seek> PagedWriter<T> {
     }
 }
 
+#[cfg(e57_verif)]
+impl<T: Write + Read + Seek> PagedWriter<T> {
+    /// Verification hook: (offset in page, copy of the page buffer).
+    pub fn verif_state(&self) -> (usize, Vec<u8>) {
+        (self.offset, self.page_buffer.to_vec())
+    }
+
+    /// Verification hook: access to the underlying device.
+    pub fn verif_device(&mut self) -> &mut T {
+        &mut self.writer
+    }
+}
+
 impl<T: Write + Read + Seek> Write for PagedWriter<T> {
     fn write(&mut self, buf: &[u8]) -> std::io::Result<usize> {
         let remaining_page_bytes = PAGE_PAYLOAD_SIZE - self.offset;
